@@ -78,7 +78,7 @@ Definition ghost_inv (s : st) (gs : gst) (k : key) : Prop :=
 Definition pc_id (p : pc) : option N :=
   match p with
   | WStart _ id | WOpened _ id _ | WCreated _ id _ _ | WChecked _ id _ _ | WCopied _ id _
-  | WDataDone _ id | WLoop _ id | WMd _ id _ | WMdW _ id _ _ _ _ | WMdFlushed _ id => Some id
+  | WDataDone _ id | WLoop _ id | WMd _ id _ | WMdW _ id _ _ _ | WMdFlushed _ id => Some id
   | _ => None
   end.
 
